@@ -24,8 +24,8 @@ for mid, r in sorted(results.items()):
     text = "\n".join(r["lines"])
     ok = ("demo on pristine tree: PASS" in text and "NOT passing: 0" in text and "demo with the change: FAIL" in text)
     prop, mk = mid.split("/")
-    src = "/tmp/mut/out/%s/%s" % (prop, mk)
-    dst = "/verif/seeded/%s-%s" % (prop, mk)
+    src = "%s/%s/%s" % (os.environ.get("MUTOUT", "/tmp/mut/out"), prop, mk)
+    dst = "/verif/seeded/%s-%s%s" % (prop, os.environ.get("SEED_PREFIX", ""), mk)
     if not ok or not os.path.exists(src + "/patch.diff"):
         print(mid, "NOT CONFIRMED - skipped:", [l for l in r["lines"][:4]])
         continue
@@ -34,7 +34,7 @@ for mid, r in sorted(results.items()):
     shutil.copy(src + "/demo_test.go", dst + "/demo_test.go")
     notes = open(src + "/meta.txt").read() if os.path.exists(src + "/meta.txt") else ""
     meta = {
-        "id": "%s-%s" % (prop, mk),
+        "id": os.path.basename(dst),
         "breaks_property": prop,
         "written_by": "independent sub-agent given only the property text and a scratch worktree",
         "needs_to_manifest": notes,
